@@ -10,6 +10,7 @@ CONSTANTS
   TG = "t12"
   LAYOUTS = {"dfs", "rev"}
   EMIT = TRUE
+VIEW View
 INVARIANTS LawCompose IndicesKept ResultWellFormed
 ACTION_CONSTRAINT Emit
 CHECK_DEADLOCK FALSE
